@@ -8,7 +8,7 @@
   mux   spec/Gen_Muxer.tla (G: sibling groups, parent rank, child patches of unequal size; join/split/join_send/
         split_recv) -> harness/c13_gvec.cpp
 """
-import json, os, re
+import json, os, re, time
 import concurrent.futures as cf
 import vlib
 
@@ -66,6 +66,7 @@ def gen_mat(nr, nd, nc, square, pvs):
 
 def replay(chk, binary, cases, nr, harness, keyf, nontrivial, shards=None, tmo=30):
     # the three parts replay side by side: at most 3 mpirun jobs per part
+    t0 = time.time()
     try:
         res = vlib.run_cases(binary, cases, tmo=tmo, max_abnormal=6, shards=shards or max(1, min(3, 9 // nr)), wrapper=MPIRUN + [str(nr)])
     except vlib.MachineryError as e:
@@ -73,6 +74,7 @@ def replay(chk, binary, cases, nr, harness, keyf, nontrivial, shards=None, tmo=3
         vlib.log("[c13x] replay failed to start (%s); retrying once" % str(e).splitlines()[0][:200])
         res = vlib.run_cases(binary, cases, tmo=tmo, max_abnormal=6, shards=1, wrapper=MPIRUN + [str(nr)])
     vlib.judge_results(chk, cases, res, sig, harness=harness, keyf=keyf, nontrivial=nontrivial)
+    vlib.log("[c13x] %s: %d %s cases on %d ranks replayed in %.1fs" % (harness, len(cases), cases[0].get("kind", "") if cases else "", nr, time.time() - t0))
     return len(cases)
 
 
